@@ -20,5 +20,14 @@ let handle = function
         | PDone RTrue -> "T" | PDone RFalse -> "F" | PDone RLocked -> "L" | PDone (RSeen v) -> "S" ^ on v | _ -> "@" in
       Printf.sprintf "%s | %s | %s | %s" (String.concat "," (List.init (List.length l) res)) (on s.ref) (on s.lock)
         (String.concat "," (List.map on s.hist))
+  | ["prun"; l0; p0; ops; sched] ->
+      (* the loose + packed-refs model: ops are tag:a:b with tag 0 pack, 1 cas a b, 2 set a, 3 del a, 4 read;
+         answer: result codes (0 unfinished, 1 true, 2 false, 3 locked, 4 saw nothing, 5+v saw v) | loose | packed *)
+      let o x = if x = "-" then None else Some (nat_of_int (int_of_string x)) in
+      let n s = nat_of_int (int_of_string s) in
+      let mk x = match String.split_on_char ':' x with [t; a; b] -> (n t, (n a, n b)) | _ -> failwith "op" in
+      let steps = if sched = "_" then [] else List.map n (String.split_on_char '.' sched) in
+      let (res, (lo, pa)) = pk_run (o l0) (o p0) (List.map mk (String.split_on_char ',' ops)) steps in
+      Printf.sprintf "%s | %s | %s" (String.concat "," (List.map (fun r -> string_of_int (int_of_nat r)) res)) (on lo) (on pa)
   | _ -> "EXN bad request"
 let () = serve handle
